@@ -1,5 +1,6 @@
 """C14 Queries never modify the index."""
 from .. import alpha as al
+from .. import codec
 from .. import lru as L
 from .. import observe
 from .. import relational as R
@@ -67,9 +68,95 @@ class Check(HCheck):
 CHECK = Check()
 
 
+# ------------------------------------------------------------------------------ part F
+# "every reachable index state" includes what a reopen finds after a torn write history
+# (C18's cuts): on every cut that opens, the read-only menu must leave both files untouched.
+def _torn_histories(tier):
+    l75, l149, l223 = (A + L.long_stem(n) for n in (75, 149, 223))
+    ops = [al.page(l149, True), al.page(l75), al.page(l223 + b"p:k|"), al.links((l75, Ax), (Ax, l149)), al.page(Ax, True), al.create(l75)]
+    import itertools
+
+    d = 2
+    return [h for n in range(1, d + 1) for h in itertools.product(ops, repeat=n)]
+
+
+def _torn_work(hist):
+    import os
+    import types
+    from .. import engine_f, env
+
+    ns = env.load()
+    cfg = Cfg("domain")
+    rec = engine_f.record(cfg, hist)
+    if rec is None:
+        return hist, 0, None
+    log_, marks, final, rules_after, default = rec
+    folder = env.fresh_folder("torn")
+    n_checked = 0
+    try:
+        lo = marks[-2]
+        for n in range(lo, len(log_) + 1):
+            engine_f.materialise(log_, n, folder)
+            try:
+                t = ns["Traph"](folder=folder, default_webentity_creation_rule=L.RULES[default], webentity_creation_rules={})
+            except Exception:
+                continue
+            w = types.SimpleNamespace(t=t, TraphException=ns["TraphException"])
+            try:
+                def bytes_now():
+                    t.lru_trie_file.flush()
+                    t.link_store_file.flush()
+                    return open(t.lru_trie_path, "rb").read(), open(t.link_store_path, "rb").read()
+
+                before = bytes_now()
+                for name, thunk in observe.menu(w, light=True):
+                    status, _ = observe.call(w, thunk)
+                    after = bytes_now()
+                    n_checked += 1
+                    if after != before:
+                        if status == "failure":
+                            before = after
+                            continue
+                        return hist, n_checked, ("query-modified-store-after-cut", "on the index reopened after write %d of this history, the read-only request %s (%s) changed the %s store" % (n, name, status, "trie" if after[0] != before[0] else "link"), n)
+            finally:
+                t.close()
+    finally:
+        env.wipe(folder)
+    return hist, n_checked, None
+
+
 def run(tier, seed, log=print):
-    return run_hcheck(CHECK, tier, seed, log)
+    import multiprocessing
+    from .. import guard
+
+    out = run_hcheck(CHECK, tier, seed, log)
+    if out.violations:
+        return out
+    hists = _torn_histories(tier)
+    total = 0
+    with multiprocessing.get_context("fork").Pool(16) as pool:
+        results = guard.imap(pool, _torn_work, hists)
+        while True:
+            try:
+                hist, n, bad = next(results)
+            except StopIteration:
+                break
+            except guard.Stuck as st:
+                out.harness_errors.append("part F: a torn-history task did not come back: %r" % ([codec.show(o) for o in st.task],))
+                break
+            total += n
+            if bad:
+                tag, msg, cut = bad
+                out.violations.append({"oracle": tag, "message": msg + "   [history: %s]" % " ; ".join(codec.show(o) for o in hist), "replay": {"engine": "F", "tier": tier, "history": codec.enc(hist), "history_text": [codec.show(o) for o in hist]}})
+                break
+    log("  [F] read-only menu on reopened torn states: %d calls bracketed by a byte comparison, %d histories" % (total, len(hists)))
+    out.coverage["calls_on_reopened_torn_states"] = total
+    out.coverage["traces_validated_against_impl"] += len(hists)
+    return out
 
 
 def replay(doc):
+    if doc.get("engine") == "F":
+        hist, n, bad = _torn_work(codec.dec(doc["history"]))
+        return [(bad[0], bad[1], None)] if bad else []
     return replay_hcheck(CHECK, doc)
